@@ -133,6 +133,8 @@ class PyTranslator:
                 return self.alg.const(n.value)
             if isinstance(n.value, complex) and isinstance(self.alg, SymAlg):
                 return self.alg.const(n.value.real) + sp.I * self.alg.const(n.value.imag) if n.value.real else sp.I * self.alg.const(n.value.imag)
+            if n.value is Ellipsis:
+                return sp.Symbol("Ellipsis")
             raise AnalysisError(f"{self.where}: unsupported constant {n.value!r}")
         if isinstance(n, ast.Name):
             if n.id in env:
@@ -780,6 +782,11 @@ class OpenPyTranslator(PyTranslator):
                     if isinstance(e, ast.Name):
                         env[e.id] = self.sym(e.id)
             self._walk(s.body, env)
+        elif isinstance(s, ast.If):
+            # both arms in source order: a name bound in both keeps the value of the later arm, an accumulation under a
+            # condition is recorded as taking place (the rules that need the condition look at the test themselves)
+            self._walk(s.body, env)
+            self._walk(s.orelse, env)
         elif isinstance(s, ast.While):
             self._walk(s.body, env)
         elif isinstance(s, ast.With):
